@@ -4,25 +4,18 @@
   lib/remote/jsonrpcconnection.cpp); on-disk format: C20's netstring model.  Helper lemmas: C12/Lemmas.lean.
 -/
 import IcingaProofs.C12.Lemmas
+import IcingaProofs.C12.TraceLemmas
 import IcingaModel.C12.Spec
+import IcingaModel.C12.Trace
 
 namespace Icinga.C12
 open Icinga.C20
-
-/-- What the property wants replayed from position `p`: newer than `p` and visible to the peer's zone. -/
-def wanted (vis : Nat → Bool) (p : Int) (e : Entry) : Bool := !skipEntry vis p e
-
-/-- The records on disk are well formed for replay: strictly increasing timestamps in replay order, and
-    every rotated file is named after a second later than all its records (`int(lastTs)+1`). -/
-structure WF (dec : Bytes → Option Entry) (now : Int) (s : Sender) : Prop where
-  increasing : (fullView dec now s).Pairwise (fun a b => a.2.ts < b.2.ts)
-  named : ∀ f ∈ s.files, ∀ e ∈ entriesOf dec f.bytes, e.ts < f.name * usec
 
 /-
   FULL STATEMENT (false of the unchanged code, Q-C12a): for all records in non-decreasing timestamp order
   ("arbitrary virtual times" includes a clock that does not advance between two events) a pass sends exactly
   the records newer than the peer's position that its zone may see.  `timestamp <= peer_ts → continue`
-  (apilistener.cpp:1527) skips the second of two records with the same stamp: see `replay_exact_counterexample`.
+  (apilistener.cpp:1535) skips the second of two records with the same stamp: see `replay_exact_counterexample`.
   What holds is the statement for strictly increasing stamps.
 -/
 
@@ -31,9 +24,7 @@ structure WF (dec : Bytes → Option Entry) (now : Int) (s : Sender) : Prop wher
 theorem replay_exact_partial (vis : Nat → Bool) (p lp : Int) (xs : List (Int × Entry))
     (hs : xs.Pairwise (fun a b => a.2.ts < b.2.ts)) :
     msgsOf (replayEntries vis ⟨p, lp, [], 0⟩ xs).out = (xs.map (·.2)).filter (wanted vis p) := by
-  have := replayEntries_sorted vis xs ⟨p, lp, [], 0⟩ hs
-  simp only [msgsOf_nil, List.nil_append] at this
-  exact this
+  exact replay_pass_aux vis p lp xs hs
 
 example : msgsOf (replayEntries (fun o => o == 1) ⟨5, 5, [], 0⟩
     [(2, ⟨4, 1, none⟩), (2, ⟨6, 2, some 0⟩), (2, ⟨7, 3, some 1⟩), (9, ⟨8, 4, none⟩)]).out = [⟨7, 3, some 1⟩, ⟨8, 4, none⟩] := by decide
@@ -54,27 +45,7 @@ theorem replay_exact (dec : Bytes → Option Entry) (vis : Nat → Bool) (limit 
     (hd : dur ≠ 0) (wf : WF dec now (openLog now s)) :
     msgsOf (replay dec vis limit now dur p s).out = ((fullView dec now (openLog now s)).map (·.2)).filter (wanted vis p) ∧
     (replay dec vis limit now dur p s).fuelOut = false := by
-  have hd' : (dur == 0) = false := by simp [hd]
-  simp only [replay, hd', Bool.false_eq_true, if_false]
-  have h := replayLoop_first_pass dec vis limit now (openLog now s) p
-  simp only at h
-  rw [h.1, h.2.2.1]
-  refine ⟨?_, rfl⟩
-  have hsub := view_sublist dec now p (openLog now s)
-  simp only [replayPass]
-  rw [replay_exact_partial vis p p _ (List.Pairwise.sublist hsub wf.increasing)]
-  -- the files dropped by `name ≥ peer_ts` contain nothing the filter would let through
-  simp only [view, fullView, List.map_append, List.filter_append]
-  congr 1
-  rw [List.filter_map, List.filter_map]
-  congr 1
-  apply filter_flatMap_filter
-  intro f hf hc x hx
-  simp only [decide_eq_false_iff_not, Int.not_le] at hc
-  obtain ⟨e, he, rfl⟩ := List.mem_map.mp hx
-  have hn := wf.named f ((mem_sortByName f _).mp hf) e he
-  simp only [Function.comp, wanted, skipEntry, Bool.not_eq_false', Bool.or_eq_true, decide_eq_true_eq]
-  left; omega
+  exact replay_exact_aux dec vis limit now dur p s hd wf
 
 /-- **confirmed_not_replayed.**  Whatever is on disk (any order, any damage): ReplayLog never sends a record
     whose timestamp the peer's position already covers, nor one its zone may not see, and what it sends is a
@@ -155,14 +126,6 @@ theorem cleanup_safe (dec : Bytes → Option Entry) (vis : Nat → Bool) (now : 
 example : (cleanup 100000000 [⟨true, 50000000, 70000000, 0, false, false⟩] { files := [⟨60, []⟩, ⟨80, []⟩, ⟨40, []⟩] }).files
     = [⟨80, []⟩] := by decide
 
-/-- A payload encoding as PersistMessage/ReplayLog need it: decoding inverts encoding, records stay below
-    the netstring reader's length limit. -/
-structure Codec where
-  enc : Entry → Bytes
-  dec : Bytes → Option Entry
-  dec_enc : ∀ e, dec (enc e) = some e
-  small : ∀ e, (enc e).length < 10 ^ 9
-
 /-- What `n` PersistMessage calls leave in a file. -/
 def fileOf (c : Codec) (es : List Entry) : Bytes := nsEncodeAll (es.map c.enc)
 
@@ -191,6 +154,35 @@ theorem truncation_tolerant (c : Codec) (es : List Entry) (k : Nat) :
         (by rw [chunks_flatten, h1])).1
   simp only [entriesOf, hitems, ← List.map_take]
   exact takeSome_map_some c.enc c.dec c.dec_enc _
+
+/-- **damage_tolerant** (the arbitrary-tail version of `truncation_tolerant`).  A log file whose first `k` bytes
+    are intact and are followed by ANY bytes `garbage` (a torn frame with later records appended behind it,
+    random corruption, well-framed records whose text is not a JSON object — `dec` says `none` — …): ReplayLog
+    reads, first and in order, the `j` records whose frames lie wholly inside the intact prefix; whatever it makes
+    of the rest (`extra`: nothing, or what the bytes happen to decode to) comes after them. -/
+theorem damage_tolerant (c : Codec) (es : List Entry) (k : Nat) (garbage : Bytes) :
+    ∃ j extra, entriesOf c.dec ((fileOf c es).take k ++ garbage) = es.take j ++ extra ∧
+      (fileOf c (es.take j)).length ≤ k ∧ (j < es.length → k < (fileOf c (es.take (j + 1))).length) := by
+  obtain ⟨j, t, h1, _, h3, h4⟩ := take_encodeAll (es.map c.enc) k
+  have hps : ∀ p ∈ (es.map c.enc).take j, okPayload none p := by
+    intro p hp
+    obtain ⟨e, _, rfl⟩ := List.mem_map.mp (List.mem_of_mem_take hp)
+    exact ⟨c.small e, rfl⟩
+  obtain ⟨extra, hx⟩ := run_frames_garbage none (runFuel {} (chunks ((fileOf c es).take k ++ garbage))) [] true
+    (chunks ((fileOf c es).take k ++ garbage)) [] 0 ((es.map c.enc).take j) (t ++ garbage) hps
+    (by rw [chunks_flatten]; simp only [fileOf, List.nil_append, h1, List.append_assoc])
+    (by intro _ p ps' _; have := nsEncode_length_ge p; simp; omega)
+    (by simp [runFuel])
+  refine ⟨j, takeSome (extra.map c.dec), ?_, by simpa [fileOf, List.map_take] using h3, by
+    intro hj; simpa [fileOf, List.map_take] using h4 (by simpa using hj)⟩
+  have hitems : fileItems ((fileOf c es).take k ++ garbage) = (es.take j).map c.enc ++ extra := by
+    simp only [fileItems, nsReadAll]
+    rw [hx]; simp [List.map_take]
+  simp only [entriesOf, hitems]
+  exact takeSome_append_some c.enc c.dec c.dec_enc _ _
+
+example : entriesOf (fun b => if b == [104] then some ⟨1, 1, none⟩ else none)
+    (nsEncodeAll [[104]] ++ [52, 58, 110, 117, 108, 108, 44] ++ nsEncodeAll [[104]]) = [⟨1, 1, none⟩] := by decide
 
 /-- **survives_restart.**  A crash that lost no byte of `current`, followed by a new process on the same
     directory, changes nothing in what ReplayLog sends. -/
@@ -223,6 +215,76 @@ theorem relay_persists (peers : Nat → Peer) (master : Option Nat) (zones : Lis
 
 example : (relay (fun i => if i == 0 then ⟨true, 1, 0, 0, true, false⟩ else ⟨true, 1, 0, 0, false, false⟩) none
     [(false, [1]), (true, [0])]) = ⟨true, [0], []⟩ := by decide
+
+/-! ## the whole trace -/
+
+/-- A fresh node and the empty ghost history are related. -/
+theorem rel_init (c : Codec) (t0 : Int) (h0 : 0 < t0) (pf : Bool) (dA dB dC : Int) :
+    Rel c (specInit [dA, dB, dC]) (initNode t0 pf dA dB dC) t0 :=
+  { isOpen := rfl, files := rfl, cur := (by simp [initNode, start, openLog, specInit, encFile_nil]),
+    curSize := (by simp [specInit, encFile_nil]), torn := rfl,
+    intact := (by intro g hg; simp [ghostAll, specInit] at hg), sorted := (by simp [specInit]),
+    nameLe := (by intro f hf; simp [specInit] at hf), lastPos := (by simpa [initNode, start, openLog] using h0),
+    lastLe := (by simp [initNode, start, openLog]), incr := (by simp [ghostAll, specInit]),
+    tsLe := (by intro g hg; simp [ghostAll, specInit] at hg), curLe := (by intro g hg; simp [specInit] at hg),
+    named := (by intro f hf; simp [specInit] at hf), pos := rfl, conn := rfl, durs := rfl, dropped := rfl,
+    rel0 := rfl, rel1 := rfl, rel2 := rfl }
+
+/-- **step_meets_spec.**  From related states, every operation of the node — at a time later than everything
+    before, on peer A, B or C — produces observed steps the specification accepts, and leaves related states. -/
+theorem step_meets_spec (c : Codec) (limit : Nat) (sp : SpecSt) (n : Node) (t : Int) (op : Op) (hr : Rel c sp n t)
+    (hp : op.peerOk = true) (ht : ∀ now, op.time = some now → t < now) :
+    ∃ sp', specEnd sp (stepOp c limit n op).2 = some sp' ∧ Rel c sp' (stepOp c limit n op).1 (op.time.getD t) := by
+  cases op with
+  | relay now id sec => exact step_relay c limit sp n t now id sec (ht now rfl) hr
+  | conn p => exact step_conn c limit sp n t p (by simpa [Op.peerOk] using hp) hr
+  | disc p => exact step_disc c limit sp n t p (by simpa [Op.peerOk] using hp) hr
+  | replay now p => exact step_replay c limit sp n t now p (by simpa [Op.peerOk] using hp) (ht now rfl) hr
+  | rotate now => exact step_rotate c limit sp n t now (ht now rfl) hr
+  | timer now => exact step_timer c limit sp n t now (ht now rfl) hr
+  | ack p v => exact step_ack c limit sp n t p v (by simpa [Op.peerOk] using hp) hr
+  | recv p ts => exact step_recv c limit sp n t p ts (by simpa [Op.peerOk] using hp) hr
+  | crashStart now => exact step_crashStart c limit sp n t now (ht now rfl) hr
+
+/-- **model_trace_meets_spec** (the whole property on the model).  For every payload encoding, every rotation
+    threshold, every configuration (which of the two zone members is master, the three log_durations), and every
+    finite sequence of events (any security object), connects, disconnects, ReplayLog runs, rotations, clean-up
+    timer runs, log-position acknowledgements, incoming messages and crash-restarts of the sender, under a virtual
+    clock that advances by at least 1 µs per timed operation: the trace the model node produces satisfies the
+    executable specification `specTrace` — every event for a disconnected related endpoint is logged; every replay
+    delivers exactly known events, in order, none twice, none confirmed, none invisible, and all that are intact,
+    unconfirmed, visible and inside the log_duration; the clean-up deletes nothing a related endpoint still needs;
+    the receiver filter and the acknowledgement are exact.
+    (Crash points that cut `current` inside a frame are covered per file by `truncation_tolerant`/`damage_tolerant`;
+    equal timestamps are excluded by the clock hypothesis, see `replay_exact_counterexample`.) -/
+theorem model_trace_meets_spec (c : Codec) (limit : Nat) (t0 : Int) (h0 : 0 < t0) (pf : Bool) (dA dB dC : Int)
+    (ops : List Op) (hc : ClockOK t0 ops) :
+    specTrace (specInit [dA, dB, dC]) (runModel c limit (initNode t0 pf dA dB dC) ops) 0 = none := by
+  suffices h : ∀ (ops : List Op) (sp : SpecSt) (n : Node) (t : Int) (i : Nat), Rel c sp n t → ClockOK t ops →
+      specTrace sp (runModel c limit n ops) i = none from h ops _ _ t0 0 (rel_init c t0 h0 pf dA dB dC) hc
+  intro ops
+  induction ops with
+  | nil => intro sp n t i _ _; rfl
+  | cons op rest ih =>
+    intro sp n t i hr hck
+    simp only [ClockOK] at hck
+    obtain ⟨hp, hck⟩ := hck
+    have ht : ∀ now, op.time = some now → t < now := by
+      intro now hnow; rw [hnow] at hck; exact hck.1
+    obtain ⟨sp', h1, h2⟩ := step_meets_spec c limit sp n t op hr hp ht
+    simp only [runModel]
+    rw [specTrace_append _ sp sp' _ i h1]
+    apply ih sp' _ (op.time.getD t) _ h2
+    cases hnow : op.time with
+    | none => rw [hnow] at hck; exact hck
+    | some now => rw [hnow] at hck; exact hck.2
+
+/-- The hypotheses are satisfiable on a non-trivial history: two events while A is away, a rotation, a clean-up,
+    A reconnects and is replayed to, acknowledges, the sender crashes and restarts, B reconnects. -/
+example : ClockOK 1000000
+    [.relay 1000001 1 none, .relay 1000002 2 (some 1), .rotate 3000000, .relay 3000001 3 (some 4), .timer 9000000,
+     .conn 0, .replay 9000001 0, .ack 0 2000000, .recv 0 5, .crashStart 9500000, .conn 1, .replay 9500001 1] := by
+  simp [ClockOK, Op.peerOk, Op.time]
 
 /-- The spec predicate is not vacuous: it rejects a replay that omits a logged, unconfirmed event, and one
     that repeats an event. -/
